@@ -6,12 +6,12 @@ from symx import core as sx
 from symx.core import var, assume, eq, le, sa, band, bor, alleq, close
 
 META = dict(
-    explanation='GammaSurface.a12_to_pos/pos_to_a12/pos_to_xy/xy_to_pos/a12_to_xy/xy_to_a12 are executed on concrete instances (rectangular and oblique shift vectors, cubic and triclinic cells, default and explicit a1vect/a2vect/xvect) with symbolic query coordinates for one and many positions; SDVPN.disldensity/elastic_energy/stress_energy/surface_energy/nonlocal_energy/longrange_energy/total_energy are executed with a symbolic disregistry profile, symbolic K tensor, stress, alpha, beta on a concrete uniform grid (state constructed directly) and compared with independent double-loop evaluations of the documented formulas.',
-    functions=['atomman/defect/GammaSurface.py:a12_to_pos,pos_to_a12,pos_to_xy,xy_to_pos,a12_to_xy,xy_to_a12', 'atomman/defect/SDVPN.py:disldensity,elastic_energy,stress_energy,surface_energy,nonlocal_energy,longrange_energy,total_energy'],
+    explanation='GammaSurface.a12_to_pos/pos_to_a12/pos_to_xy/xy_to_pos/a12_to_xy/xy_to_a12 are executed on concrete instances (rectangular and oblique shift vectors, cubic and triclinic cells, default and explicit a1vect/a2vect/xvect) with symbolic query coordinates for one and many positions; E_gsf is cut before its interpolation (AST of the current source) and the fractional coordinates that reach the interpolation are compared, for a symbolic shift given as fractions, Cartesian position or plotting coordinates, with stored or alternate in-plane vectors, against the fractions of the stored vectors that describe that shift; SDVPN.disldensity/elastic_energy/stress_energy/surface_energy/nonlocal_energy/longrange_energy/total_energy are executed with a symbolic disregistry profile, symbolic K tensor, stress, alpha, beta on a concrete uniform grid (state constructed directly) and compared with independent double-loop evaluations of the documented formulas.',
+    functions=['atomman/defect/GammaSurface.py:a12_to_pos,pos_to_a12,pos_to_xy,xy_to_pos,a12_to_xy,xy_to_a12,E_gsf (up to the interpolation)', 'atomman/defect/SDVPN.py:disldensity,elastic_energy,stress_energy,surface_energy,nonlocal_energy,longrange_energy,total_energy'],
     bounds=dict(quick='3 gamma-surface instances x all real query coordinates, 1, 2 and 4 positions; PN: grid of 5 points (spacing 0.4), disregistry 5x3 symbolic, symmetric K (6 symbolic entries), tau 3x3, two alpha, beta 3x3; finite-difference options on/off',
                 thorough='grid of 7 points'),
     outside=['interpolation of the gamma surface (scipy RBF): reproduces-input, periodicity, model round trip', 'SDVPN.solve (scipy.optimize.minimize): never raises the energy, fixed ends', 'half-width clause', 'IEEE-754 rounding'],
-    lemmas=[], cuts=['misfit_energy replaced by an opaque value in the total-energy case (interpolation is a SciPy boundary)', 'SDVPN object built with object.__new__ and its private fields set directly'],
+    lemmas=[], cuts=['E_gsf cut before `if smooth:` (returns the fractions handed to the interpolation)', 'misfit_energy replaced by an opaque value in the total-energy case (interpolation is a SciPy boundary)', 'SDVPN object built with object.__new__ and its private fields set directly'],
     assumptions=[], trusted=[],
 )
 BIND = ['atomman.defect.GammaSurface', 'atomman.defect.SDVPN', 'atomman.core.Box']
@@ -65,6 +65,60 @@ def h_gamma(kind, npos, explicit):
         c1 = np.atleast_1d(c1); c2 = np.atleast_1d(c2)
         ob.append(('xy_to_a12(a12_to_xy(a)) == a', band(np.shape(c1) == (npos,), *[close(c1[k], A1[k], 1e-9, S) for k in range(npos)], *[close(c2[k], A2[k], 1e-9, S) for k in range(npos)])))
         return ob
+    return fn
+
+
+# ---------------------------------------------------------------- E_gsf dispatch: which fractional coordinates reach the interpolation
+_EGSF = {}
+def egsf_stage():
+    """GammaSurface.E_gsf cut before its `if smooth:` statement (AST of the current source): returns the fractional
+    coordinates (relative to the STORED vectors) that are handed to the interpolation"""
+    import sys, ast, inspect
+    mod = sys.modules['atomman.defect.GammaSurface']
+    key = id(getattr(mod, 'np', None))
+    if key in _EGSF: return _EGSF[key]
+    tree = ast.parse(inspect.getsource(mod))
+    cls = next(n for n in tree.body if isinstance(n, ast.ClassDef) and n.name == 'GammaSurface')
+    f = next(n for n in cls.body if isinstance(n, ast.FunctionDef) and n.name == 'E_gsf')
+    cut = next(i for i, st in enumerate(f.body) if isinstance(st, ast.If) and isinstance(st.test, ast.Name) and st.test.id == 'smooth')
+    f.body = f.body[:cut] + [ast.parse('return a1, a2').body[0]]
+    f.name = '_egsf_stage'; f.returns = None; f.decorator_list = []
+    # private names (self.__hasdata) are mangled at class-compile time: keep the function inside a class of the same name
+    cls.body = [f]; cls.bases = []; cls.decorator_list = []
+    m = ast.Module(body=[cls], type_ignores=[]); ast.fix_missing_locations(m)
+    ns = {}
+    exec(compile(m, '/repo/atomman/defect/GammaSurface.py<translated>', 'exec'), mod.__dict__, ns)
+    _EGSF[key] = ns['GammaSurface'].__dict__['_egsf_stage']
+    return _EGSF[key]
+
+
+def h_egsf(kind, how, alt):
+    """the same shift given as fractions, as a Cartesian position or as plotting coordinates, with the stored or with
+    alternate in-plane vectors, must reach the interpolation at the same fractions of the stored vectors"""
+    def fn():
+        g = gsurf(kind)
+        stage = egsf_stage()
+        Vb = np.array(g.box.vects, float)
+        s1 = np.dot(g.a1vect, Vb); s2 = np.dot(g.a2vect, Vb)                   # stored vectors, Cartesian
+        f1 = var('f1', 0.05, 0.45); f2 = var('f2', 0.05, 0.45)                 # the shift, in fractions of the stored vectors
+        P = [f1 * float(s1[j]) + f2 * float(s2[j]) for j in range(3)]
+        kw = {}
+        if alt:
+            kw = dict(a1vect=np.asarray(g.a2vect) * 1.0, a2vect=np.asarray(g.a1vect) + np.asarray(g.a2vect))     # another basis of the same plane
+        if how == 'pos':
+            a1, a2 = stage(g, pos=sa(P), smooth=True, **kw)
+        elif how == 'xy':
+            x, y = g.pos_to_xy(sa(P))
+            a1, a2 = stage(g, x=x, y=y, smooth=True, **kw, **(dict(xvect=s1) if alt else {}))
+        else:
+            # fractions relative to the alternate vectors: P = b1 v1 + b2 v2
+            v1 = np.dot(kw['a1vect'], Vb); v2 = np.dot(kw['a2vect'], Vb)
+            M = np.linalg.inv(np.array([[np.dot(v1, v1), np.dot(v1, v2)], [np.dot(v1, v2), np.dot(v2, v2)]]))
+            pv = [sum(P[j] * float(v1[j]) for j in range(3)), sum(P[j] * float(v2[j]) for j in range(3))]
+            b1 = float(M[0, 0]) * pv[0] + float(M[0, 1]) * pv[1]; b2 = float(M[1, 0]) * pv[0] + float(M[1, 1]) * pv[1]
+            a1, a2 = stage(g, a1=b1, a2=b2, smooth=True, **kw)
+        a1 = np.atleast_1d(a1); a2 = np.atleast_1d(a2)
+        return [(f'E_gsf({how}{", alternate a1vect/a2vect" if alt else ""}) interpolates at the fractions of the stored vectors that describe the same shift', band(np.shape(a1) == (1,), close(a1[0], f1, 1e-9, 10.0), close(a2[0], f2, 1e-9, 10.0)))]
     return fn
 
 
@@ -173,6 +227,10 @@ def cases(tier, seed=0):
                 if explicit and (npos == 4 or tier == 'quick' and kind == 'rect_cubic'): continue
                 cs.append(Case(f'gamma_{kind}_{npos}{"_explicit" if explicit else ""}', h_gamma(kind, npos, explicit), bind=BIND, budget_s=120, timeout_ms=15000,
                                descr=f'gamma surface {kind}: conversions on {npos} position(s){", explicit a1vect/a2vect/xvect" if explicit else ""}'))
+    for kind in ('rect_cubic', 'triclinic') if tier == 'quick' else ('rect_cubic', 'oblique_cubic', 'triclinic'):
+        for how, alt in (('pos', False), ('pos', True), ('xy', False), ('xy', True), ('a12', True)):
+            cs.append(Case(f'egsf_{kind}_{how}{"_alt" if alt else ""}', h_egsf(kind, how, alt), bind=BIND, budget_s=120, timeout_ms=15000,
+                           descr=f'E_gsf dispatch ({kind}): shift given as {how}{" with alternate vectors" if alt else ""} reaches the interpolation at the right fractions'))
     n = 5 if tier == 'quick' else 7
     for cdiff in (False, True):
         for full in (True, False):
